@@ -416,9 +416,20 @@ Definition def_sfields (d : sdef) : list sfield :=
   | SBEnum vs => flat_map (fun v => snd v) vs
   end.
 
-(** ** recorded type names: [stringify!] of the source type (harness/src/reggen.rs [type_name]) *)
+(** ** recorded type names (harness/src/reggen.rs [type_name]): scale-info-derive's
+    [clean_type_string] of the token string of the source type.  Its rules are not symmetric: the
+    blank after a comma is kept before an identifier and before [(], but not before [[]
+    ([(Option<T>,[U; 2])]); a one-element tuple keeps its comma ([(T,)]).  Validated against the real
+    derive by the derive tier (harness/src/dtier.rs). *)
+Definition render_sep (t : src) : string := match t with SArray _ _ => "," | _ => ", " end.
+
 Fixpoint render (defs : list sdef) (pnames : list string) (t : src) : string :=
-  let args l := join ", " ((fix go (l : list src) := match l with [] => [] | x :: l' => render defs pnames x :: go l' end) l) in
+  let args l := (fix go (l : list src) (first : bool) : string :=
+                   match l with
+                   | [] => ""%string
+                   | x :: l' => String.append (if first then ""%string else render_sep x)
+                                              (String.append (render defs pnames x) (go l' false))
+                   end) l true in
   match t with
   | SParam i => nth i pnames (String.append "P" (N_to_string (N.of_nat i)))
   | SApp d a =>
@@ -427,15 +438,16 @@ Fixpoint render (defs : list sdef) (pnames : list string) (t : src) : string :=
   | SVec x => "Vec<" ++ render defs pnames x ++ ">"
   | SVecDeque x => "VecDeque<" ++ render defs pnames x ++ ">"
   | SArray n x => "[" ++ render defs pnames x ++ "; " ++ N_to_string n ++ "]"
+  | STup [x] => "(" ++ render defs pnames x ++ ",)"
   | STup ts => "(" ++ args ts ++ ")"
   | SPrimT p => prim_name p
   | SCompactT x => "Compact<" ++ render defs pnames x ++ ">"
   | SBox x => "Box<" ++ render defs pnames x ++ ">"
   | SOpt x => "Option<" ++ render defs pnames x ++ ">"
-  | SRes a b => "Result<" ++ render defs pnames a ++ ", " ++ render defs pnames b ++ ">"
-  | SBTreeMap a b => "BTreeMap<" ++ render defs pnames a ++ ", " ++ render defs pnames b ++ ">"
+  | SRes a b => "Result<" ++ render defs pnames a ++ render_sep b ++ render defs pnames b ++ ">"
+  | SBTreeMap a b => "BTreeMap<" ++ render defs pnames a ++ render_sep b ++ render defs pnames b ++ ">"
   | SBTreeSet x => "BTreeSet<" ++ render defs pnames x ++ ">"
-  | SCow x => "Cow<'static, " ++ render defs pnames x ++ ">"
+  | SCow x => "Cow<'static" ++ render_sep x ++ render defs pnames x ++ ">"
   | SRange x => "Range<" ++ render defs pnames x ++ ">"
   | SBitVec st lsb => "BitVec<" ++ prim_name st ++ ", " ++ (if lsb then "Lsb0" else "Msb0") ++ ">"
   end.
@@ -656,20 +668,30 @@ Section RegistryOfB.
         end
     end.
 
-  Definition registry_ofb : bool :=
+  (** every entry is locally the derive's entry for its label (the first two clauses of [RegistryOf]) *)
+  Definition registry_entries_ofb : bool :=
     Nat.eqb (List.length labels) (List.length r) &&
     forall2b (fun (o : option src) (e : N * ty) =>
                 match o with
                 | Some c => entry_ofb c (snd e)
                 | None => order_markerb true (snd e) || order_markerb false (snd e)
-                end) labels r &&
+                end) labels r.
+
+  (** one id per label (the third clause).  scale-info interns by the TypeId of ONE step of
+      [Identity] (Box<T> -> T, Vec<T> / VecDeque<T> -> [T], String -> str): a program that mentions
+      [Vec<Box<T>>] and [Vec<T>], or [Box<Vec<T>>] and [Vec<T>], gets two entries with one [canon]
+      label, and this clause fails (harness/src/reggen.rs [tid_key], validated by the derive tier) *)
+  Definition labels_injectiveb : bool :=
     (fix nodup (l : list (option src)) : bool :=
        match l with
        | [] => true
        | None :: l' => nodup l'
        | Some c :: l' => negb (existsb (fun o => match o with Some c' => src_eqb c c' | None => false end) l') && nodup l'
        end) labels.
+
+  Definition registry_ofb : bool := registry_entries_ofb && labels_injectiveb.
 End RegistryOfB.
+Arguments labels_injectiveb labels : clear implicits.
 
 (** ** the fragment of source types covered by [C05_skeleton_is_source_partial]: parameters,
     applications of definitions, Vec / VecDeque, arrays, tuples, primitives, Compact, Box *)
